@@ -6,7 +6,8 @@ from netlib import ex
 def build(env, sc):
     from onl.scheduler import SP, WFQ, VC, DRR, RR, WRR
     K = sc["cfg"]["K"]
-    rate = 8.0 / K
+    ts = 2.0 ** sc.get("tscale", 0)      # one lattice tick = ts seconds (an exact power of two)
+    rate = 8.0 / K / ts
     cfg = sc["cfg"]
     f2c = cfg["f2c"]
     order = cfg["order"]
@@ -21,7 +22,7 @@ def build(env, sc):
         ws = {c - 1: w[c - 1] for c in order}
         return WFQ(env, rate, ws) if ident else WFQ(env, rate, ws, flow2class=fmap)
     if kind == "VC":
-        ws = {c - 1: w[c - 1] for c in order}
+        ws = {c - 1: w[c - 1] * ts for c in order}       # vticks are durations
         return VC(env, rate, ws) if ident else VC(env, rate, ws, flow2class=fmap)
     if kind == "DRR":
         ws = {c - 1: w[c - 1] for c in order}
@@ -57,7 +58,9 @@ def run_one(sc):
 
     cfg = sc["cfg"]
     nf, nc = cfg["nf"], cfg["nc"]
-    t0 = sc.get("t0", 0)          # the environment's clock starts at t0; instants are recorded relative to it
+    ts = 2.0 ** sc.get("tscale", 0)  # "tscale": e -- the same scenario in another time unit: one tick = 2**e seconds, the rate
+                                     # 2**-e times as large; every instant and duration is recorded in ticks again (exact)
+    t0 = sc.get("t0", 0) * ts        # the environment's clock starts at t0; instants are recorded relative to it
     env = Environment(t0) if t0 else Environment()
     rec = netlib.Recorder(env)
     base = {"id": 0, "f": 1, "sz": 0, "sch": 0, "pis": 0, "wt": -1, "tot": 0, "cnt": [0] * nf, "byt": [0] * nf, "cr": [0] * nc,
@@ -85,17 +88,17 @@ def run_one(sc):
             d["cr"] = [ex(s.deficit.get(c, -1)) for c in range(nc)]
         if k is not None:
             if kind == "WFQ":
-                d["fk"] = ex(s.finish_times.get(k, -1))
-                d["v"] = ex(s.vtime)
+                d["fk"] = ex(s.finish_times[k] / ts) if k in s.finish_times else -1
+                d["v"] = ex(s.vtime / ts)
             elif kind == "VC":
-                d["fk"] = ex(s.aux_vc[k] - t0) if k in s.aux_vc else -1     # auxVC is an instant
+                d["fk"] = ex((s.aux_vc[k] - t0) / ts) if k in s.aux_vc else -1     # auxVC is an instant
         return d
 
     notify = [lambda: None]
 
     class Sink:
         def put(self, pkt):
-            rec.ev.append(dict(base, e="D", t=ex(env.now - t0), id=pkt.packet_id, f=pkt.flow_id + 1, sz=pkt.size, **state()))
+            rec.ev.append(dict(base, e="D", t=ex((env.now - t0) / ts), id=pkt.packet_id, f=pkt.flow_id + 1, sz=pkt.size, **state()))
             notify[0]()
 
     # "noout": the scheduler is the last element of the path (out stays None); departures are then not observable at a
@@ -115,7 +118,7 @@ def run_one(sc):
         first_seen.setdefault(a["f"] - 1, env.now)
         # sch = 1: the arrival was scheduled before its instant began (a timer set earlier, or the same process step as
         # such an arrival); sch = 0: a reactive arrival, created by zero-delay hops inside the instant
-        rec.ev.append(dict(base, e="A", t=ex(env.now - t0), id=i + 1, f=a["f"], sz=a["sz"], sch=0 if "after" in a else 1,
+        rec.ev.append(dict(base, e="A", t=ex((env.now - t0) / ts), id=i + 1, f=a["f"], sz=a["sz"], sch=0 if "after" in a else 1,
                            **state(cfg["f2c"][a["f"] - 1] - 1)))
 
     mon = sc.get("mon")
@@ -137,20 +140,20 @@ def run_one(sc):
                         seen[f] = len(m.sizes[f])
                         fresh.add(f)
                         if 0 <= f < nf:
-                            rec.ev.append(dict(base, e="S", t=ex(env.now - t0), f=f + 1, x=ex(m.sizes[f][-1]),
+                            rec.ev.append(dict(base, e="S", t=ex((env.now - t0) / ts), f=f + 1, x=ex(m.sizes[f][-1]),
                                                y=ex(m.byte_sizes[f][-1]), **state()))
                 if calls[0] > 1:
                     # a sampling round has just taken place: every flow the scheduler has seen before this instant has a
                     # number to be sampled (0 when it is empty) -- a flow without a sample is recorded as sample -1
                     for f in sorted(first_seen):
                         if first_seen[f] < env.now and f not in fresh and 0 <= f < nf:
-                            rec.ev.append(dict(base, e="S", t=ex(env.now - t0), f=f + 1, x=-1, y=-1, **state()))
-            return gaps.pop(0) if gaps else float("inf")
+                            rec.ev.append(dict(base, e="S", t=ex((env.now - t0) / ts), f=f + 1, x=-1, y=-1, **state()))
+            return gaps.pop(0) * ts if gaps else float("inf")
 
         # Monitor starts its own process in __init__ and calls dist() on first resumption
         holder[0] = Monitor(env, s, dist, service_included=bool(mon["incl"]))
 
-    notify[0] = netlib.injector(env, rec, sc["arr"], make_packet, s, on_arrival, origin=t0)
+    notify[0] = netlib.injector(env, rec, sc["arr"], make_packet, s, on_arrival, origin=t0, scale=ts)
     if sc.get("twin"):
         # a second scheduler of the same kind and configuration lives in the same process and environment and carries
         # its own traffic: nothing it does may show in the first one's trace
@@ -162,9 +165,9 @@ def run_one(sc):
                     pass
             s2.out = Null()
             netlib.injector(env, None, sc["twin"], lambda i, a: Packet(env.now, a["sz"], 1000 + i, flow_id=a["f"] - 1), s2,
-                            lambda i, a, pkt: None, origin=t0)
+                            lambda i, a, pkt: None, origin=t0, scale=ts)
         except BaseException as e:  # noqa
-            rec.ev.append(dict(base, e="X", t=ex(env.now - t0), type=type(e).__name__))
+            rec.ev.append(dict(base, e="X", t=ex((env.now - t0) / ts), type=type(e).__name__))
     ok = netlib.run_env(env, rec)
     for e in rec.ev:
         if e["e"] == "X":
@@ -172,7 +175,7 @@ def run_one(sc):
             for k, v in base.items():
                 e.setdefault(k, v)
     if ok:
-        rec.ev.append(dict(base, e="Q", t=ex(env.now - t0), **state()))
+        rec.ev.append(dict(base, e="Q", t=ex((env.now - t0) / ts), **state()))
     return out
 
 
